@@ -5,85 +5,409 @@ Import ListNotations.
 Close Scope Z_scope.
 Open Scope nat_scope.
 
-Definition p_item (p : val * md * nat) : val * md := (fst (fst p), snd (fst p)).
-Definition b_pending (s : bst) : list (val * md) := b_q s ++ map p_item (b_putters s).
-Definition b_flight (s : bst) : md := match b_busy s with Some m => m | None => [] end.
-Definition b_held (s : bst) : md := b_flight s ++ flat_map snd (b_pending s).
+(* ---- common helper facts (local copies, see THEOREMS.md) -------------------------------------- *)
+Lemma ins_of_app a b : ins_of (a ++ b) = ins_of a ++ ins_of b.
+Proof. apply flat_map_app. Qed.
+Lemma ids_of_app a b : ids_of (a ++ b) = ids_of a ++ ids_of b.
+Proof. apply flat_map_app. Qed.
+Lemma all_deliv_app a b : all_deliv (a ++ b) = all_deliv a ++ all_deliv b.
+Proof. apply flat_map_app. Qed.
+Lemma all_done_app a b : all_done (a ++ b) = all_done a ++ all_done b.
+Proof. apply flat_map_app. Qed.
+Lemma deliv_items_app a b : deliv_items (a ++ b) = deliv_items a ++ deliv_items b.
+Proof. apply map_app. Qed.
+Lemma n_emits_app a b : n_emits (a ++ b) = n_emits a + n_emits b.
+Proof. unfold n_emits. rewrite ins_of_app, app_length. reflexivity. Qed.
 
-(* closed forms for the counters *)
-Ltac rc_norm :=
-  unfold b_deliver_rc, rc_via_emit in *;
-  repeat first [ rewrite rcnt_release | rewrite rcnt_retain ].
+Lemma ins_of_snoc_emit acts src x m : ins_of (acts ++ [AEmit src x m]) = ins_of acts ++ [(x, m)].
+Proof. rewrite ins_of_app. reflexivity. Qed.
+Lemma ids_of_snoc_emit acts src x m : ids_of (acts ++ [AEmit src x m]) = ids_of acts ++ map mid (filter mref m).
+Proof. rewrite ids_of_app. cbn [ids_of flat_map]. rewrite app_nil_r. reflexivity. Qed.
+Lemma n_emits_snoc_emit acts src x m : n_emits (acts ++ [AEmit src x m]) = S (n_emits acts).
+Proof. rewrite n_emits_app. cbn. lia. Qed.
 
-Lemma rcnt_deliver sync rc m r :
-  rcnt (b_deliver_rc sync rc m) r = (rcnt rc r - (if sync then mocc m r else 0))%Z.
-Proof. unfold b_deliver_rc, rc_via_emit. destruct sync; rc_norm; lia. Qed.
+Definition no_emit (a : act) : Prop := match a with AEmit _ _ _ => False | _ => True end.
+Lemma ins_of_snoc_other acts a : no_emit a -> ins_of (acts ++ [a]) = ins_of acts.
+Proof. intros H. rewrite ins_of_app. destruct a; try destruct H; cbn; apply app_nil_r. Qed.
+Lemma ids_of_snoc_other acts a : no_emit a -> ids_of (acts ++ [a]) = ids_of acts.
+Proof. intros H. rewrite ids_of_app. destruct a; try destruct H; cbn; apply app_nil_r. Qed.
 
-(* ---- the drain loop ---------------------------------------------------------------------------- *)
-Record drain_ok (sync : bool) (now : Z) (rc : rcs) (q : list (val * md)) (pt : list (val * md * nat))
-       (res : rcs * list (val * md) * list (val * md * nat) * option md * list (Z * val * md) * list nat) : Prop := {
-  dr_items : let '(rc', q', pt', busy', dl, dn) := res in
-             deliv_items dl ++ q' ++ map p_item pt' = q ++ map p_item pt;
-  dr_rc : let '(rc', q', pt', busy', dl, dn) := res in
-          forall r, rcnt rc' r = (rcnt rc r - (if sync then mocc (flat_map snd (deliv_items dl)) r else 0))%Z;
-  dr_busy : let '(rc', q', pt', busy', dl, dn) := res in
-            (busy' = None -> q' = [] /\ pt' = []) /\
-            (forall m, busy' = Some m -> sync = false /\ exists x, dl = [(now, x, m)]) /\
-            (sync = true -> busy' = None);
-  dr_done : let '(rc', q', pt', busy', dl, dn) := res in
-            dn ++ map snd pt' = map snd pt /\ length q' + (if busy' then 1 else 0) + length dl * (if sync then 1 else 0) <= S (length q) + length pt;
-}.
-
-Lemma b_drain_spec sync now : forall fuel rc q pt,
-  length q + length pt < fuel ->
-  drain_ok sync now rc q pt (b_drain fuel sync now rc q pt).
+Lemma mocc_notin m r : ~ In r (map mid (filter mref m)) -> mocc m r = 0%Z.
 Proof.
-  induction fuel as [|fuel IH]; intros rc q pt Hf; [lia|].
-  cbn [b_drain].
-  destruct pt as [|[[x0 m0] e0] pt'].
-  - (* no putter *)
-    destruct q as [|[x m] qt].
-    + constructor; cbn; auto. split; [auto|]. split; [intros m H; discriminate | auto].
-    + destruct sync.
-      * specialize (IH (b_deliver_rc true rc m) qt [] ltac:(cbn in *; lia)).
-        destruct (b_drain fuel true now (b_deliver_rc true rc m) qt []) as [[[[[rc2 q2] p2] busy2] dl] dn].
-        destruct IH as [a b c d]. constructor.
-        -- cbn in *. rewrite <- a. reflexivity.
-        -- intros r. rewrite b, rcnt_deliver. cbn. rewrite mocc_app. lia.
-        -- destruct c as [c1 [c2 c3]]. split; [exact c1|]. split; [|exact c3].
-           intros mm Hm. rewrite (c3 eq_refl) in Hm. discriminate.
-        -- cbn in *. destruct d as [d1 d2]. split; [exact d1|]. lia.
-      * constructor; cbn.
-        -- reflexivity.
-        -- intros r. rewrite rcnt_deliver. lia.
-        -- split; [discriminate|]. split; [|discriminate]. intros mm Hm. injection Hm as <-. split; [reflexivity|]. eauto.
-        -- split; [reflexivity | lia].
-  - (* a putter moves its item into the queue first *)
-    destruct (q ++ [(x0, m0)]) as [|[x m] qt] eqn:Eq; [destruct q; discriminate|].
-    assert (Hlen : length qt = length q) by (apply (f_equal (@length _)) in Eq; rewrite app_length in Eq; cbn in Eq; lia).
-    destruct sync.
-    + specialize (IH (b_deliver_rc true rc m) qt pt' ltac:(cbn in *; lia)).
-      destruct (b_drain fuel true now (b_deliver_rc true rc m) qt pt') as [[[[[rc2 q2] p2] busy2] dl] dn].
-      destruct IH as [a b c d]. constructor.
-      * cbn in *. rewrite <- app_assoc in *. cbn. rewrite a.
-        change ((x, m) :: qt ++ map p_item pt') with (((x, m) :: qt) ++ map p_item pt'). rewrite <- Eq, <- app_assoc. reflexivity.
-      * intros r. rewrite b, rcnt_deliver. cbn. rewrite mocc_app. lia.
-      * destruct c as [c1 [c2 c3]]. split; [exact c1|]. split; [|exact c3].
-        intros mm Hm. rewrite (c3 eq_refl) in Hm. discriminate.
-      * cbn in *. destruct d as [d1 d2]. split; [rewrite d1; reflexivity | lia].
-    + constructor; cbn.
-      * change ((x, m) :: qt ++ map p_item pt') with (((x, m) :: qt) ++ map p_item pt'). rewrite <- Eq, <- app_assoc. reflexivity.
-      * intros r. rewrite rcnt_deliver. lia.
-      * split; [discriminate|]. split; [|discriminate]. intros mm Hm. injection Hm as <-. split; [reflexivity|]. eauto.
-      * split; [reflexivity | lia].
+  induction m as [|i t IH]; cbn [mocc filter map]; intros H; [reflexivity|].
+  destruct (mref i) eqn:Ei; cbn [andb map] in *.
+  - destruct (Nat.eqb_spec (mid i) r) as [E|E].
+    + exfalso. apply H. left. exact E.
+    + rewrite IH; [reflexivity|]. intros X. apply H. right. exact X.
+  - rewrite IH; [reflexivity | exact H].
 Qed.
 
-(* ---- the invariant ------------------------------------------------------------------------------ *)
-Record BInv (acts : list act) (s : bst) (outs : list (list (Z * val * md) * list nat)) : Prop := {
-  bi_fifo : deliv_items (all_deliv outs) ++ b_pending s = ins_of acts;
+Lemma nodup_app_inv {A} (l1 l2 : list A) :
+  NoDup (l1 ++ l2) -> NoDup l1 /\ NoDup l2 /\ (forall x, In x l1 -> ~ In x l2).
+Proof.
+  induction l1 as [|a t IH]; cbn [app]; intros H.
+  - split; [constructor|]. split; [exact H|]. intros x [].
+  - inversion H as [|? ? Hn Ht]; subst. destruct (IH Ht) as [H1 [H2 H3]].
+    split; [constructor; [intros X; apply Hn; apply in_or_app; left; exact X | exact H1]|].
+    split; [exact H2|]. intros x [<-|Hx]; [intros X; apply Hn; apply in_or_app; right; exact X | apply H3; exact Hx].
+Qed.
+
+Lemma nodup_snoc_emit acts src x m :
+  NoDup (ids_of (acts ++ [AEmit src x m])) ->
+  NoDup (ids_of acts) /\ (forall r, In r (ids_of acts) -> mocc m r = 0%Z).
+Proof.
+  rewrite ids_of_snoc_emit. intros H. apply nodup_app_inv in H as [H1 [H2 H3]].
+  split; [exact H1|]. intros r Hr. apply mocc_notin. apply H3. exact Hr.
+Qed.
+
+Lemma notin_snoc_emit acts src x m r :
+  ~ In r (ids_of (acts ++ [AEmit src x m])) -> ~ In r (ids_of acts) /\ mocc m r = 0%Z.
+Proof.
+  rewrite ids_of_snoc_emit. intros H. split.
+  - intros X. apply H. apply in_or_app. left. exact X.
+  - apply mocc_notin. intros X. apply H. apply in_or_app. right. exact X.
+Qed.
+
+(* lifting a step invariant to all runs *)
+Lemma run_steps_inv (M : node_model)
+      (I : list act -> nm_state M -> list (list (Z * val * md) * list nat) -> Prop) :
+  (forall acts s outs a s' o, I acts s outs -> nm_step M s a = (s', o) -> I (acts ++ [a]) s' (outs ++ [o])) ->
+  forall acts acts0 s0 outs0 s outs,
+    I acts0 s0 outs0 -> run_steps M s0 acts = (s, outs) -> I (acts0 ++ acts) s (outs0 ++ outs).
+Proof.
+  intros Hstep. induction acts as [|a t IH]; intros acts0 s0 outs0 s outs H0 Hr; cbn [run_steps] in Hr.
+  - injection Hr as <- <-. rewrite !app_nil_r. exact H0.
+  - destruct (nm_step M s0 a) as [s1 o] eqn:E1. destruct (run_steps M s1 t) as [s2 os] eqn:E2.
+    injection Hr as <- <-.
+    change (a :: t) with ([a] ++ t). change (o :: os) with ([o] ++ os). rewrite !app_assoc.
+    eapply IH; [|exact E2]. eapply Hstep; [exact H0 | exact E1].
+Qed.
+
+(* decomposing where a callback can have been scheduled *)
+Ltac fired_cases H :=
+  unfold rc_via_emit in H; cbv beta in H;
+  repeat match type of H with
+  | In _ (rfired (rc_release _ _ 1)) =>
+      let H1 := fresh "Hle" in let H2 := fresh "Hge" in
+      apply rfired_release_new in H; destruct H as [H | [H1 H2]]
+  | In _ (rfired (rc_retain _ _ _)) => rewrite rfired_retain in H
+  end.
+Ltac rc_norm := unfold rc_via_emit in *; repeat (rewrite ?rcnt_release, ?rcnt_retain in * ).
+
+(* ---- the model-specific notions ------------------------------------------------------------------ *)
+Definition p_item (p : val * md * nat) : val * md := (fst (fst p), snd (fst p)).
+Definition b_pending (s : bst) : list (val * md) := b_q s ++ map p_item (b_putters s).
+Definition b_held (s : bst) : md :=
+  (match b_busy s with Some m => m | None => [] end) ++ flat_map snd (b_pending s).
+
+(* literally the definitions of THEOREMS.md *)
+Lemma b_pending_spec s : b_pending s = b_q s ++ map (fun p => (fst (fst p), snd (fst p))) (b_putters s).
+Proof. reflexivity. Qed.
+Lemma b_held_spec s : b_held s = (match b_busy s with Some m => m | None => [] end) ++ flat_map snd (b_pending s).
+Proof. reflexivity. Qed.
+
+Ltac bsimpl := cbn [b_n b_sync b_now b_rc b_next b_q b_putters b_busy] in *.
+
+(* ---- one round of the consumer loop with a sink that returns an awaitable ----------------------- *)
+Lemma drain1 f now rc q pt rc' q' pt' busy' dl dn :
+  b_drain (S f) false now rc q pt = (rc', q', pt', busy', dl, dn) ->
+  (q ++ map p_item pt = [] /\ q' = [] /\ pt' = [] /\ busy' = None /\ dl = [] /\ dn = [] /\ rc' = rc) \/
+  (exists x m, q ++ map p_item pt = (x, m) :: q' ++ map p_item pt' /\ busy' = Some m /\ dl = [(now, x, m)] /\
+               rc' = rc_via_emit rc m (fun r => r) /\ dn ++ map snd pt' = map snd pt /\
+               length q' <= length q /\ (pt' <> [] -> length q' = length q /\ pt <> [])).
+Proof.
+  cbn [b_drain]. destruct pt as [|[[x0 m0] e0] pt1].
+  - destruct q as [|[x m] qt]; intros H; injection H as <- <- <- <- <- <-.
+    + left. repeat split; reflexivity.
+    + right. exists x, m. cbn [map length]. rewrite !app_nil_r.
+      repeat match goal with |- _ /\ _ => split end; try reflexivity; try lia. intros X. contradiction.
+  - destruct (q ++ [(x0, m0)]) as [|[x m] qt] eqn:Eq; [destruct q; discriminate|].
+    intros H; injection H as <- <- <- <- <- <-.
+    assert (Hlen : length qt = length q).
+    { apply (f_equal (@length _)) in Eq. rewrite app_length in Eq. cbn [length] in Eq. lia. }
+    right. exists x, m. cbn [map p_item fst snd].
+    repeat match goal with |- _ /\ _ => split end; try reflexivity; try lia; try (intros _; split; [lia | discriminate]).
+    change (p_item (x0, m0, e0)) with (x0, m0).
+    change (q ++ (x0, m0) :: map p_item pt1) with (q ++ [(x0, m0)] ++ map p_item pt1).
+    rewrite app_assoc, Eq. reflexivity.
+Qed.
+
+(* ---- the invariant: DL = deliveries so far, N = completed emits so far -------------------------- *)
+Record BInv (n : nat) (acts : list act) (s : bst) (DL : list (Z * val * md)) (N : list nat) : Prop := {
+  bi_n : b_n s = n;
+  bi_next : b_next s = n_emits acts;
+  bi_fifo : deliv_items DL ++ b_pending s = ins_of acts;
+  bi_bound : length (b_q s) <= n /\ (b_putters s <> [] -> length (b_q s) = n /\ b_busy s <> None);
   bi_idle : b_busy s = None -> b_q s = [] /\ b_putters s = [];
   bi_sync : b_sync s = true -> b_busy s = None;
+  bi_done : Permutation (N ++ map snd (b_putters s)) (seq 0 (n_emits acts));
   bi_bal : forall r, rcnt (b_rc s) r = mocc (b_held s) r;
-  bi_next : b_next s = n_emits acts;
-  bi_done : Permutation (all_done outs ++ map snd (b_putters s)) (seq 0 (n_emits acts));
+  bi_ids : forall r, ~ In r (ids_of acts) -> mocc (b_held s) r = 0%Z /\ ~ In r (rfired (b_rc s));
+  bi_cb : NoDup (ids_of acts) -> forall r, In r (rfired (b_rc s)) -> mocc (b_held s) r = 0%Z;
 }.
+
+Lemma BInv_init n sync : BInv n [] (b_init n sync) [] [].
+Proof. constructor; cbn; auto. split; [lia | intros X; contradiction]. Qed.
+
+Lemma BInv_ext n a1 a2 s DL N :
+  ins_of a1 = ins_of a2 -> ids_of a1 = ids_of a2 -> BInv n a1 s DL N -> BInv n a2 s DL N.
+Proof.
+  intros E1 E2 [a b c c1 c2 c3 c4 d e f].
+  assert (En : n_emits a1 = n_emits a2) by (unfold n_emits; rewrite E1; reflexivity).
+  constructor; rewrite <- ?E1, <- ?E2, <- ?En; assumption.
+Qed.
+
+Lemma in_ids_of_fired n acts s DL N :
+  BInv n acts s DL N -> forall r, In r (rfired (b_rc s)) -> In r (ids_of acts).
+Proof.
+  intros HI r Hf. destruct (in_dec Nat.eq_dec r (ids_of acts)) as [X|X]; [exact X|].
+  destruct (bi_ids _ _ _ _ _ HI r X) as [_ X2]. contradiction.
+Qed.
+
+(* emit while the consumer waits in get(): direct hand-off to the sink *)
+Lemma BInv_emit_idle n acts s DL N src x m :
+  BInv n acts s DL N -> b_busy s = None ->
+  BInv n (acts ++ [AEmit src x m])
+       {| b_n := b_n s; b_sync := b_sync s; b_now := b_now s;
+          b_rc := b_deliver_rc (b_sync s) (rc_via_emit (b_rc s) m (fun r => rc_retain r m 1)) m;
+          b_next := S (b_next s); b_q := []; b_putters := [];
+          b_busy := if b_sync s then None else Some m |}
+       (DL ++ [(b_now s, x, m)]) (N ++ [b_next s]).
+Proof.
+  intros HI Eb. pose proof (in_ids_of_fired _ _ _ _ _ HI) as Hfired. destruct HI as [a b c c1 c2 c3 c4 d e f].
+  destruct (c2 Eb) as [Eq Ep]. unfold b_held, b_pending in *. rewrite Eb, Eq, Ep in *. cbn [map app flat_map] in *.
+  constructor; unfold b_held, b_pending; bsimpl; cbn [map app flat_map length]; try assumption.
+  - rewrite n_emits_snoc_emit, b. reflexivity.
+  - rewrite ins_of_snoc_emit, deliv_items_app, !app_nil_r in *. rewrite c. reflexivity.
+  - split; [lia | intros X; contradiction].
+  - intros _. split; reflexivity.
+  - intros ->. reflexivity.
+  - rewrite n_emits_snoc_emit, seq_S, app_nil_r in *. rewrite b. apply Permutation_app_tail. exact c4.
+  - intros r. specialize (d r). unfold b_deliver_rc. destruct (b_sync s); rewrite ?app_nil_r; cbn [mocc] in *; rc_norm; lia.
+  - intros r Hr. apply notin_snoc_emit in Hr as [Hr Hm]. destruct (e r Hr) as [e1 e2].
+    split; [destruct (b_sync s); rewrite ?app_nil_r; cbn [mocc]; lia|].
+    intros Hf. unfold b_deliver_rc in Hf. destruct (b_sync s); fired_cases Hf; try lia; exact (e2 Hf).
+  - intros Hnd r Hf. apply nodup_snoc_emit in Hnd as [Hnd Hm]. specialize (d r). cbn [mocc] in d.
+    pose proof (mocc_nonneg m r).
+    unfold b_deliver_rc in Hf. destruct (b_sync s); rewrite ?app_nil_r; cbn [mocc];
+      fired_cases Hf; rc_norm; try lia; exact (Hm r (Hfired r Hf)).
+Qed.
+
+(* emit while the consumer is busy: enqueue, or block in put() when the queue is full *)
+Lemma BInv_emit_busy n acts s DL N src x m m0 :
+  BInv n acts s DL N -> b_busy s = Some m0 ->
+  BInv n (acts ++ [AEmit src x m])
+       (if length (b_q s) <? b_n s then
+          {| b_n := b_n s; b_sync := b_sync s; b_now := b_now s;
+             b_rc := rc_via_emit (b_rc s) m (fun r => rc_retain r m 1); b_next := S (b_next s);
+             b_q := b_q s ++ [(x, m)]; b_putters := b_putters s; b_busy := b_busy s |}
+        else
+          {| b_n := b_n s; b_sync := b_sync s; b_now := b_now s;
+             b_rc := rc_via_emit (b_rc s) m (fun r => rc_retain r m 1); b_next := S (b_next s);
+             b_q := b_q s; b_putters := b_putters s ++ [(x, m, b_next s)]; b_busy := b_busy s |})
+       DL (N ++ (if length (b_q s) <? b_n s then [b_next s] else [])).
+Proof.
+  intros HI Eb. pose proof (in_ids_of_fired _ _ _ _ _ HI) as Hfired. destruct HI as [a b c c1 c2 c3 c4 d e f].
+  unfold b_held, b_pending in *. rewrite Eb in *.
+  set (P := flat_map snd (b_q s ++ map p_item (b_putters s))) in *.
+  (* the counter facts are the same in both branches *)
+  assert (Hheld : forall q' p', flat_map snd (q' ++ map p_item p') = P ++ m ->
+     (forall r, rcnt (rc_via_emit (b_rc s) m (fun r0 => rc_retain r0 m 1)) r = mocc (m0 ++ flat_map snd (q' ++ map p_item p')) r) /\
+     (forall r, ~ In r (ids_of (acts ++ [AEmit src x m])) ->
+                mocc (m0 ++ flat_map snd (q' ++ map p_item p')) r = 0%Z /\
+                ~ In r (rfired (rc_via_emit (b_rc s) m (fun r0 => rc_retain r0 m 1)))) /\
+     (NoDup (ids_of (acts ++ [AEmit src x m])) -> forall r,
+                In r (rfired (rc_via_emit (b_rc s) m (fun r0 => rc_retain r0 m 1))) ->
+                mocc (m0 ++ flat_map snd (q' ++ map p_item p')) r = 0%Z)).
+  { intros q' p' ->. split; [|split].
+    - intros r. specialize (d r). rewrite !mocc_app in *. rc_norm. lia.
+    - intros r Hr. apply notin_snoc_emit in Hr as [Hr Hm]. destruct (e r Hr) as [e1 e2].
+      rewrite !mocc_app in *. split; [lia|]. intros Hf. fired_cases Hf; try lia. exact (e2 Hf).
+    - intros Hnd r Hf. apply nodup_snoc_emit in Hnd as [Hnd Hm]. specialize (d r). rewrite !mocc_app in *.
+      pose proof (mocc_nonneg m0 r). pose proof (mocc_nonneg P r). pose proof (mocc_nonneg m r).
+      fired_cases Hf; rc_norm; try lia.
+      specialize (f Hnd r Hf). specialize (Hm r (Hfired r Hf)). rewrite mocc_app in f. lia. }
+  subst P.
+  destruct (Nat.ltb_spec (length (b_q s)) (b_n s)) as [Hlt|Hge].
+  - (* room in the queue; no put() can be blocked *)
+    assert (Ep : b_putters s = []).
+    { destruct (b_putters s) as [|p pt]; [reflexivity|]. destruct c1 as [_ c1]. destruct c1 as [c1 _]; [discriminate | lia]. }
+    rewrite Ep in *. cbn [map] in *. rewrite app_nil_r in *.
+    destruct (Hheld (b_q s ++ [(x, m)]) []) as [H1 [H2 H3]].
+    { cbn [map]. rewrite app_nil_r, flat_map_app. cbn [flat_map snd]. rewrite app_nil_r. reflexivity. }
+    cbn [map] in H1, H2, H3. rewrite app_nil_r in H1, H2, H3.
+    constructor; unfold b_held, b_pending; bsimpl; rewrite ?Eb, ?Ep; cbn [map]; rewrite ?app_nil_r; try assumption.
+    + rewrite n_emits_snoc_emit, b. reflexivity.
+    + rewrite ins_of_snoc_emit, app_assoc, c. reflexivity.
+    + split; [rewrite app_length; cbn [length]; lia | intros X; contradiction].
+    + discriminate.
+    + rewrite n_emits_snoc_emit, seq_S, b. apply Permutation_app_tail. exact c4.
+  - (* queue full: the put() blocks *)
+    destruct (Hheld (b_q s) (b_putters s ++ [(x, m, b_next s)])) as [H1 [H2 H3]].
+    { rewrite map_app, app_assoc, flat_map_app. cbn [map p_item flat_map fst snd]. rewrite app_nil_r. reflexivity. }
+    constructor; unfold b_held, b_pending; bsimpl; rewrite ?Eb; try assumption.
+    + rewrite n_emits_snoc_emit, b. reflexivity.
+    + rewrite ins_of_snoc_emit, map_app, !app_assoc. rewrite !app_assoc in c. rewrite c. reflexivity.
+    + destruct c1 as [c1 _]. split; [exact c1|]. intros _. split; [lia | discriminate].
+    + discriminate.
+    + rewrite n_emits_snoc_emit, seq_S, app_nil_r, map_app, app_assoc. cbn [map snd]. rewrite b.
+      apply Permutation_app_tail. exact c4.
+Qed.
+
+(* the sink's future resolves: release, then one round of the consumer loop *)
+Lemma BInv_ack n acts s DL N m0 rc1 q1 p1 busy1 dl dn :
+  BInv n acts s DL N -> b_busy s = Some m0 ->
+  b_drain (S (length (b_q s) + length (b_putters s))) (b_sync s) (b_now s) (rc_release (b_rc s) m0 1) (b_q s) (b_putters s)
+    = (rc1, q1, p1, busy1, dl, dn) ->
+  BInv n acts {| b_n := b_n s; b_sync := b_sync s; b_now := b_now s; b_rc := rc1; b_next := b_next s;
+                 b_q := q1; b_putters := p1; b_busy := busy1 |} (DL ++ dl) (N ++ dn).
+Proof.
+  intros [a b c c1 c2 c3 c4 d e f] Eb Hd.
+  assert (Esy : b_sync s = false).
+  { destruct (b_sync s); [|reflexivity]. rewrite (c3 eq_refl) in Eb. discriminate. }
+  rewrite Esy in Hd. apply drain1 in Hd.
+  unfold b_held, b_pending in *. rewrite Eb in *.
+  destruct Hd as [[Hp [-> [-> [-> [-> [-> ->]]]]]] | [x [m [Hp [-> [-> [-> [Hdn [Hl1 Hl2]]]]]]]]].
+  - (* nothing pending: the consumer goes back to get() *)
+    rewrite Hp in *. cbn [flat_map] in *. rewrite !app_nil_r in *.
+    constructor; unfold b_held, b_pending; bsimpl; cbn [map app flat_map length]; rewrite ?app_nil_r; try assumption.
+    + split; [lia | intros X; contradiction].
+    + intros _. split; reflexivity.
+    + intros _. reflexivity.
+    + apply app_eq_nil in Hp as [_ Hp]. destruct (b_putters s); [|discriminate]. cbn [map] in c4. rewrite app_nil_r in c4. exact c4.
+    + intros r. specialize (d r). cbn [mocc]. rc_norm. lia.
+    + intros r Hr. destruct (e r Hr) as [e1 e2]. split; [reflexivity|].
+      pose proof (mocc_nonneg m0 r). intros Hf. fired_cases Hf; try lia. exact (e2 Hf).
+    + intros _ r _. reflexivity.
+  - (* the head of the pending elements goes to the sink *)
+    rewrite Hp in *. cbn [flat_map snd] in *.
+    set (R := flat_map snd (q1 ++ map p_item p1)) in *.
+    constructor; unfold b_held, b_pending; bsimpl; try fold R; try assumption.
+    + rewrite deliv_items_app, <- app_assoc. exact c.
+    + destruct c1 as [c1 c1']. split; [lia|]. intros X. destruct (Hl2 X) as [Y Z]. destruct (c1' Z) as [W _].
+      split; [lia | discriminate].
+    + discriminate.
+    + rewrite Esy. discriminate.
+    + rewrite <- app_assoc, Hdn. exact c4.
+    + intros r. specialize (d r). rewrite !mocc_app in *. rc_norm. lia.
+    + intros r Hr. destruct (e r Hr) as [e1 e2]. rewrite !mocc_app in *.
+      pose proof (mocc_nonneg m0 r). pose proof (mocc_nonneg m r). pose proof (mocc_nonneg R r).
+      split; [lia|]. intros Hf. fired_cases Hf; try lia. exact (e2 Hf).
+    + intros Hnd r Hf. specialize (d r). rewrite !mocc_app in *.
+      pose proof (mocc_nonneg m0 r). pose proof (mocc_nonneg m r). pose proof (mocc_nonneg R r).
+      fired_cases Hf; rc_norm; try lia. specialize (f Hnd r Hf). rewrite !mocc_app in f. lia.
+Qed.
+
+Definition BFull (n : nat) (acts : list act) (s : bst) (outs : list (list (Z * val * md) * list nat)) : Prop :=
+  BInv n acts s (all_deliv outs) (all_done outs).
+
+Lemma BFull_step n acts s outs a s' o :
+  BFull n acts s outs -> nm_step buffer_model s a = (s', o) -> BFull n (acts ++ [a]) s' (outs ++ [o]).
+Proof.
+  intros HI Hs. cbn [nm_step buffer_model] in Hs. unfold BFull in *.
+  rewrite all_deliv_app, all_done_app. cbn [all_deliv all_done flat_map]. rewrite !app_nil_r.
+  destruct a as [src x m| |k|dt]; cbn [b_step] in Hs.
+  - destruct (b_busy s) as [m0|] eqn:Eb.
+    + pose proof (BInv_emit_busy n acts s _ _ src x m m0 HI Eb) as H1. rewrite Eb in H1.
+      destruct (length (b_q s) <? b_n s); injection Hs as <- <-; cbn [fst snd]; rewrite ?app_nil_r in *; exact H1.
+    + pose proof (BInv_emit_idle n acts s _ _ src x m HI Eb) as H1.
+      injection Hs as <- <-. cbn [fst snd]. exact H1.
+  - destruct (b_busy s) as [m0|] eqn:Eb.
+    + match type of Hs with (let '(_, _) := ?dr in _) = _ => destruct dr as [[[[[rc1 q1] p1] busy1] dl] dn] eqn:Ed end.
+      injection Hs as <- <-. cbn [fst snd].
+      eapply BInv_ext; [| |exact (BInv_ack _ _ _ _ _ _ _ _ _ _ _ _ HI Eb Ed)]; symmetry;
+        [apply ins_of_snoc_other | apply ids_of_snoc_other]; exact I.
+    + injection Hs as <- <-. cbn [fst snd]. rewrite !app_nil_r.
+      eapply BInv_ext; [| |exact HI]; symmetry; [apply ins_of_snoc_other | apply ids_of_snoc_other]; exact I.
+  - injection Hs as <- <-. cbn [fst snd]. rewrite !app_nil_r.
+    eapply BInv_ext; [| |exact HI]; symmetry; [apply ins_of_snoc_other | apply ids_of_snoc_other]; exact I.
+  - injection Hs as <- <-. cbn [fst snd]. rewrite !app_nil_r.
+    eapply BInv_ext; [symmetry; apply ins_of_snoc_other; exact I | symmetry; apply ids_of_snoc_other; exact I |].
+    destruct HI as [a b c c1 c2 c3 c4 d e f]. constructor; assumption.
+Qed.
+
+Theorem buffer_reach n sync acts s outs :
+  run_steps buffer_model (b_init n sync) acts = (s, outs) -> BFull n acts s outs.
+Proof.
+  intros H.
+  apply (run_steps_inv buffer_model (BFull n) (BFull_step n) acts [] (b_init n sync) [] s outs); [|exact H].
+  apply BInv_init.
+Qed.
+
+(* ---- headline theorems (they hold for every n, also n = 0) --------------------------------------- *)
+Theorem buffer_fifo n sync acts s outs :
+  run_steps buffer_model (b_init n sync) acts = (s, outs) ->
+  deliv_items (all_deliv outs) ++ b_pending s = ins_of acts.
+Proof. intros H. exact (bi_fifo _ _ _ _ _ (buffer_reach _ _ _ _ _ H)). Qed.
+
+Theorem buffer_bound n sync acts s outs :
+  run_steps buffer_model (b_init n sync) acts = (s, outs) ->
+  length (b_q s) <= n /\ (b_putters s <> [] -> length (b_q s) = n /\ b_busy s <> None).
+Proof. intros H. exact (bi_bound _ _ _ _ _ (buffer_reach _ _ _ _ _ H)). Qed.
+
+Theorem buffer_no_lost_wakeup n sync acts s outs :
+  run_steps buffer_model (b_init n sync) acts = (s, outs) ->
+  b_busy s = None -> b_q s = [] /\ b_putters s = [].
+Proof. intros H. exact (bi_idle _ _ _ _ _ (buffer_reach _ _ _ _ _ H)). Qed.
+
+Theorem buffer_sync_never_busy n sync acts s outs :
+  run_steps buffer_model (b_init n sync) acts = (s, outs) ->
+  b_sync s = true -> b_busy s = None.
+Proof. intros H. exact (bi_sync _ _ _ _ _ (buffer_reach _ _ _ _ _ H)). Qed.
+
+Theorem buffer_done n sync acts s outs :
+  run_steps buffer_model (b_init n sync) acts = (s, outs) ->
+  Permutation (all_done outs ++ map snd (b_putters s)) (seq 0 (n_emits acts)).
+Proof. intros H. exact (bi_done _ _ _ _ _ (buffer_reach _ _ _ _ _ H)). Qed.
+
+Theorem buffer_balance n sync acts s outs :
+  run_steps buffer_model (b_init n sync) acts = (s, outs) ->
+  forall r, rcnt (b_rc s) r = mocc (b_held s) r.
+Proof. intros H. exact (bi_bal _ _ _ _ _ (buffer_reach _ _ _ _ _ H)). Qed.
+
+Theorem buffer_cb_not_early n sync acts s outs :
+  run_steps buffer_model (b_init n sync) acts = (s, outs) ->
+  NoDup (ids_of acts) -> forall r, In r (rfired (b_rc s)) -> mocc (b_held s) r = 0%Z.
+Proof. intros H. exact (bi_cb _ _ _ _ _ (buffer_reach _ _ _ _ _ H)). Qed.
+
+Theorem buffer_count_nonneg n sync acts s outs :
+  run_steps buffer_model (b_init n sync) acts = (s, outs) ->
+  forall r, (0 <= rcnt (b_rc s) r)%Z.
+Proof. intros H r. rewrite (buffer_balance _ _ _ _ _ H). apply mocc_nonneg. Qed.
+
+(* ---- non-vacuity: element in flight, full queue, a blocked put() that is woken by an ack -------- *)
+Definition bm (i : nat) : md := [{| mid := i; mref := true |}].
+Definition b_ex_acts : list act :=
+  [AEmit 0 (VInt 1) (bm 0); AEmit 0 (VInt 2) (bm 1); AEmit 0 (VInt 3) (bm 2); AAdv 4; AAck; AAck; AAck].
+
+Example buffer_nonvacuous :
+  NoDup (ids_of b_ex_acts) /\
+  (let '(s, outs) := run_steps buffer_model (b_init 1 false) (firstn 3 b_ex_acts) in
+   b_busy s = Some (bm 0) /\ b_q s = [(VInt 2, bm 1)] /\ b_putters s = [(VInt 3, bm 2, 2)] /\
+   all_done outs = [0; 1] /\ deliv_items (all_deliv outs) = [(VInt 1, bm 0)] /\
+   map (rcnt (b_rc s)) [0; 1; 2] = [1; 1; 1]%Z /\ rfired (b_rc s) = []) /\
+  (let '(s, outs) := run_steps buffer_model (b_init 1 false) (firstn 5 b_ex_acts) in
+   b_busy s = Some (bm 1) /\ b_q s = [(VInt 3, bm 2)] /\ b_putters s = [] /\
+   all_done outs = [0; 1; 2] /\ deliv_times (all_deliv outs) = [0; 4]%Z /\ rfired (b_rc s) = [0]) /\
+  (let '(s, outs) := run_steps buffer_model (b_init 1 false) b_ex_acts in
+   b_busy s = None /\ b_q s = [] /\ b_putters s = [] /\
+   deliv_items (all_deliv outs) = [(VInt 1, bm 0); (VInt 2, bm 1); (VInt 3, bm 2)] /\
+   rfired (b_rc s) = [0; 1; 2] /\ map (rcnt (b_rc s)) [0; 1; 2] = [0; 0; 0]%Z) /\
+  (let '(s, outs) := run_steps buffer_model (b_init 1 true) b_ex_acts in
+   b_busy s = None /\ all_done outs = [0; 1; 2] /\ deliv_times (all_deliv outs) = [0; 0; 0]%Z /\
+   rfired (b_rc s) = [0; 1; 2]).
+Proof.
+  split.
+  - vm_compute. repeat constructor; cbn; intuition discriminate.
+  - vm_compute. repeat split; reflexivity.
+Qed.
+
+Print Assumptions buffer_fifo.
+Print Assumptions buffer_bound.
+Print Assumptions buffer_no_lost_wakeup.
+Print Assumptions buffer_sync_never_busy.
+Print Assumptions buffer_done.
+Print Assumptions buffer_balance.
+Print Assumptions buffer_cb_not_early.
+Print Assumptions buffer_count_nonneg.
+Print Assumptions buffer_nonvacuous.
